@@ -15,7 +15,7 @@ RULE = ("seeded histories of 3-12 public calls (synthesize_trials with every str
         "trial count) and every later synthesize_trials succeeds with the same columns and valid sequences; fault runs inject "
         "stdout EPIPE / ENOSPC inside calls; non-trivial = >=2 synthesize calls and >=1 other call; distinct = operation-kind sequence")
 ASSUMPTIONS = ["reference semantics (sim/refsem.py) reads the documentation correctly (used for the validity part only)"]
-BUDGET = {"quick": 45, "thorough": 900}
+BUDGET = {"quick": 300, "thorough": 900}
 RUNS = {"quick": 3000, "thorough": 220000}
 STRATS = ["IterateSATGen", "RandomGen", "CMSGen", "UniGen", "IterateGen", "UniformGen", "SMGen"]
 OPS = ["synth", "synth", "print", "tabulate", "csv", "tuples", "dicts", "mismatch"]
